@@ -80,6 +80,35 @@ def run_node(case):
     except Exception as e:  # noqa: BLE001
         V("exception", progcheck.exc_msg("pickle/key", e), where=progcheck.exc_site(e))
     n += 3
+    # histories: copies derived from an *already keyed* node through the public API (a key cached on the object must
+    # not travel into a copy that differs)
+    if isinstance(node, pt.Array):
+        from vf import tagdefs
+        derived = []
+        try:
+            derived.append(("tagged", node.tagged(tagdefs.UserArrayTag("after-keying")), False))
+            t1 = node.tagged(tagdefs.UserArrayTag("t1"))
+            key(t1)
+            derived.append(("tagged-then-without_tags", t1.without_tags(tagdefs.UserArrayTag("t1")), True))
+            derived.append(("tagged-twice", t1.tagged(tagdefs.UserArrayTag("t2")), False))
+            if node.ndim:
+                derived.append(("with_tagged_axis", node.with_tagged_axis(0, tagdefs.UserAxisTag("after-keying")), False))
+            derived.append(("copy()", node.copy(), True))
+        except (ValueError, TypeError, NotImplementedError):
+            pass       # (kinds that cannot be tagged: NamedCallResult)
+        for how, dn, same in derived:
+            n += 1
+            keys.append([case["label"], "history", how])
+            try:
+                kd, kfresh = key(dn), key(nodepool.rebuilt(dn))
+            except Exception as e:  # noqa: BLE001
+                V("exception", f"history {how}: " + progcheck.exc_msg("key", e), where=progcheck.exc_site(e))
+                continue
+            if kd != kfresh:
+                V("key-of-derived-copy-differs-from-fresh-build", f"key(node) computed first; {how}: the key of the derived object differs "
+                  "from the key of a structurally equal freshly built object", how=how)
+            if same != (kd == k0):
+                V("stale-or-unstable-key-after-derivation", f"{how}: key {'differs from' if same else 'equals'} the original node's", how=how)
     ms, _cannot = nodepool.mutants(node)
     for f, d, m, eq_expected in ms:
         n += 1
